@@ -361,8 +361,9 @@ def check_c11(run: Run, prog: Program) -> None:
         "all four arguments and not intercepted; (ii) balance: the returned quotient has homogeneity degree 0 in each of a, b, c, d "
         "(and from_point) on the decided paths - a necessary condition for being a projective invariant at all; (iii) the closed-form value (E19.cr): for four points "
         "P + x_i Q of one line - in the plane, in the plane seen from a fifth point, in 3-space - the returned quotient of determinants, read as polynomials in P, Q and "
-        "the parameters, equals (x1 - x3)(x2 - x4) / ((x1 - x4)(x2 - x3)) after cross-multiplication, so the symmetries of C11 follow from the closed form. NOT decided: the "
-        "line and plane pencils (they are reduced to points through base_point / basis_matrix), the 0/0 positions, harmonic_set."
+        "the parameters, equals (x1 - x3)(x2 - x4) / ((x1 - x4)(x2 - x3)) after cross-multiplication, so the symmetries of C11 follow from the closed form. The pencil of lines of the plane likewise, "
+        "for a finite vertex (slopes x_i) and a vertex at infinity (parallel lines with offsets x_i); the denominator vanishes on no coordinate hyperplane of the "
+        "configuration; the same object as the first two arguments gives 1. NOT decided: the pencil of planes (basis_matrix), projective invariance as such, harmonic_set."
     )
     fn = prog.func("crossratio")
     quad = [p.arg for p in fn.params()[:4]]
